@@ -412,6 +412,10 @@ func (s *Sim) endStep() {
 			if e.Group != nil {
 				continue // resolved above
 			}
+			if sl.stalled && sl.connected {
+				keep = append(keep, e) // nothing can arrive while the connection refuses writes: still owed
+				continue
+			}
 			if e.Optional {
 				if e.Out != nil && (e.Out.Deferred || sl.Hold) {
 					keep = append(keep, e) // still owed later
@@ -872,6 +876,15 @@ func (s *Sim) onBrokerPublish(sl *Slot, rp *eng.RxPacket) {
 		}
 		if exp.PID != 0 && exp.PID != p.PacketID {
 			m.flag("C09/resend-different-packet-id", attrs, "slot %d: %s redelivered with packet id %d, originally %d", sl.Idx, msg.ID, p.PacketID, exp.PID)
+		}
+		if p.PacketID > sl.maxOutPID && exp.Dup != 1 {
+			sl.maxOutPID = p.PacketID
+		}
+		if sl.Sess != nil && sl.Sess.InQ2[p.PacketID] != nil {
+			// legal by itself (the two directions have independent id spaces) - but from here on a mix-up of the two
+			// exchanges would be the broker's doing, not the client's
+			sl.Sess.Taint["outbound_id_equals_inbound_qos2_in_progress"] = true
+			m.count("outbound_id_equals_inbound_qos2_in_progress")
 		}
 		if other := sl.inflight[p.PacketID]; other != nil && other != o {
 			m.flag("C10/packet-id-in-use", attrs, "slot %d: packet id %d assigned to %s while %s still uses it", sl.Idx, p.PacketID, msg.ID, other.M.ID)
